@@ -1,21 +1,21 @@
 SPECIFICATION Spec
 CONSTANTS
-  Loop = {l1}
-  Gated = {g1}
+  Loop = {}
+  Gated = {g1, g2}
   CbT = {}
-  CbOnce = {c1}
-  CbF = {}
-  Forms = {"inplace", "rvalue", "lvalue"}
-  MaxEmit = 3
-  MaxHandles = 2
-  CoroMode = TRUE
+  CbOnce = {}
+  CbF = {c1}
+  Forms = {"rvalue", "default"}
+  MaxEmit = 2
+  MaxHandles = 1
+  CoroMode = FALSE
   Hooked = {}
   RegEmit = 0
-  Sigs = {1}
-  Rebinds = {}
-  Rebound = {}
-  MaxCancel = 2
-  Shells = FALSE
+  Sigs = {1, 2}
+  Rebinds = {"cctor", "mctor", "cassign", "massign"}
+  Rebound = {g1}
+  MaxCancel = 1
+  Shells = TRUE
   Strict = TRUE
 INVARIANTS TypeOK ChainWellFormed CurValid AllWaitingGetIt OncePerEmit NoDanglingRead ReAwaitMissesNone DisconnectWakesAll CallbackAnswers NoStuckState
 PROPERTIES DisconnectPromisesCancel AwaitDisconnectedFails AwaitAliveSubscribes RebindFollowsSource CallbacksFreed
